@@ -26,6 +26,15 @@ func (ex *Exec) callIntrinsic(th *Thread, name string, args []Value, site *ssa.C
 		fn := args[0].(fnBox).fn
 		ex.stubsHit["noop:"+pkgOf(fn)] = true
 		return ex.noopResult(fn.Signature), false
+	case strings.HasPrefix(name, "redirect:"):
+		// the call is served by a harness function with the same signature (environment stub)
+		tgt := ex.eng.pkg.Func(name[9:])
+		if tgt == nil {
+			panic(unsupported("redirect target not found: " + name[9:]))
+		}
+		ex.stubsHit["stub:"+fnKey(args[0].(fnBox).fn)+"=>"+name[9:]] = true
+		ex.pushFrame(th, tgt, args[1:], nil, ex.curSite)
+		return nil, false
 	case strings.HasPrefix(name, "verif:"):
 		fn := args[0].(fnBox).fn
 		return verifAPI[name[6:]](ex, th, fn, args[1:])
